@@ -82,6 +82,7 @@ fn run_line(line: &str) -> String {
         "karate" => guarded(gen::observe_karate),
         "gnp" => guarded(move || gen::observe_gnp(&mut t)),
         "gnpstat" => guarded(move || gen::observe_gnpstat(&mut t)),
+        "gnpdet" => guarded(move || gen::observe_gnpdet(&mut t)),
         "degen" => guarded(move || degen::observe(&mut t)),
         "par" => { let c = par::Case::parse(&mut t); guarded(move || par::observe(&c)) }
         "xml" => guarded(move || xml::observe(&mut t)),
